@@ -298,6 +298,12 @@ def run(ctx) -> None:
         ctx.check("R3", ok, f"vcs.commit L{call.lineno}: add() receives each element of `filepaths` unmodified",
                   "vcs.commit: staged path is not the configured path",
                   f"`{unparse(call)}` inside loops {[unparse(l.iter) for l in loops]}", loc=commit_fn.loc(call))
+        if loops:
+            gs = shapes.guards_between(loops[-1], call)
+            ctx.check("R3", not gs, f"vcs.commit L{call.lineno}: every configured path is staged (no condition between the loop and add())",
+                      "vcs.commit: a configured path is staged only under a condition",
+                      f"`{unparse(call)}` runs only when `{' and '.join(unparse(g) for g in gs)}`: e.g. a comparison with the paths printed by `git status` fails for names that git quotes "
+                      "(blanks, non-ASCII), the file is left out of the bump commit", loc=commit_fn.loc(call), witness={"file": "release notes.md"})
     # (c) chain update -> _try_update -> _update -> vcs.commit
     shapes.check_passthrough(ctx, "R3", "cli._update", "vcs.commit",
                              {"new_version": "new_version", "commit_message": "commit_message", "tag_message": "tag_message",
